@@ -12,7 +12,10 @@ C12 monitor of the record's kind on it and renders the clause it reports:
                           request violating nothing is not refused (F6 has its own clause);
 * `client_server_agree` — what the SDK client generates for valid arguments is accepted, and the handler sees the
                           arguments that were sent;
-* `decode_encode_header_value`, `primitiveEqual_refl_on_safe_ints`, `accepts_table` on the helper records.
+* `decode_encode_header_value`, `primitiveEqual_refl_on_safe_ints`, `accepts_table` on the helper records;
+* `client_server_agree` over time — records of kind `seq` (one client session: tools/list pages cached with their
+  `ttlMs`, time passing, list_changed, tools re-registered, paginated listings): the only STATEFUL kind; the engine
+  state is the model's `World` and the monitor's `SeqMon` (`Seq.lean`), reset by `seq cfg`.
 
 What decides whether and which clause is violated is in `Monitor.lean` (bridged to the model by `Bridge.lean`, to the
 property by `Sound.lean`).  Here: the token parser, the renderers of the model's observation (the equality test
